@@ -75,6 +75,10 @@ pub fn interp1d_linear_unchecked(
             }
             idx += 1;
         }
+        // the scan stops at the last knot, so targets beyond it have to be flagged explicitly
+        if tgt[i] > x[n - 1] {
+            idx = n + 1;
+        }
 
         // out of bounds, optionally extrapolate
         if idx == 0 || idx > n {
@@ -99,8 +103,8 @@ pub fn interp1d_linear_unchecked(
                     // extrapolate right
                     else if idx > n {
                         /* print("extrapolating right ", tgt[i]); */
-                        let slope = (y[n] - y[n - 1]) / (x[n] - x[n - 1]);
-                        interp.push(slope * (tgt[i] - x[n]) + y[n]);
+                        let slope = (y[n - 1] - y[n - 2]) / (x[n - 1] - x[n - 2]);
+                        interp.push(slope * (tgt[i] - x[n - 1]) + y[n - 1]);
                     }
                 }
             }
